@@ -103,7 +103,7 @@ def _tabs(layout, length):
 
 
 def encode_export(mts, version=3, header=False, comments=False, secedges=False,
-                  numbering='std', line_order='std', layout='tabs', bos_extra=False):
+                  numbering='std', line_order='std', layout='tabs', bos_extra=False, cons_morph='--', cons_lemma='--'):
     """A corpus in export format.  The model root must be the virtual root (its label is
     not representable)."""
     out = []
@@ -152,8 +152,8 @@ def encode_export(mts, version=3, header=False, comments=False, secedges=False,
             nd = node_at(mt.root, p)
             fields = ['#%d' % num[p]]
             if version == 4:
-                fields.append('--')
-            fields += [nd[0], '--', nd[1], str(num[parent_of[p]])]
+                fields.append(cons_lemma)
+            fields += [nd[0], cons_morph, nd[1], str(num[parent_of[p]])]
             line = ''
             for f in fields[:-1]:
                 line += f + _tabs(layout, len(f))
@@ -165,9 +165,10 @@ def encode_export(mts, version=3, header=False, comments=False, secedges=False,
     return ''.join(out)
 
 
-def decode_export(text, version=3):
+def decode_export(text, version=3, cons_out=None):
     """Strict decoder of what the export writer must produce.  Returns a list of MT and
-    checks the line-level requirements of C02.  Raises DecodeError."""
+    checks the line-level requirements of C02.  Raises DecodeError.
+    cons_out: a list that receives, per sentence, the (morph, lemma) columns of its constituent lines."""
     mts = []
     lines = text.split('\n')
     if lines and lines[-1] == '':
@@ -255,6 +256,8 @@ def decode_export(text, version=3):
         if n_cons != len(cons):
             raise DecodeError('%d constituent lines but %d reachable from the root' % (len(cons), n_cons))
         mts.append(MT(sid, toks, model.canon_mt(root)))
+        if cons_out is not None:
+            cons_out.append(sorted((k, v[3], v[4]) for k, v in cons.items()))
     return mts
 
 
